@@ -110,7 +110,7 @@ pub trait Monitor: Sync {
     fn pre_run(&self, _tier: Tier, _seed: u64, _verif_root: &str) {}
     /// soft wall-clock budget in seconds after which no further *random* case is started
     fn budget_s(&self, tier: Tier) -> u64 {
-        tier.pick(40, 480)
+        tier.pick(90, 600)
     }
 }
 
